@@ -288,6 +288,27 @@ CHECKS = {
         note="Trusted: TLC, GCC 12 sanitizers, the driver's own correct-caller guards (sequences it cuts short are not "
              "judged), rt/vt.c. Python capsule destructors are not exercised here (see C03).",
     ),
+    "C03": dict(
+        level="model_checking",
+        design="DESIGN.md section 4 / C03",
+        technique="TLA+ specs PyDispatch (binding of positional/keyword values to input parameters, overload choice in "
+                  "declaration order, C++ arity) and CallBridge model-checked with TLC; calls of a real compiled "
+                  "extension module (results / exception classes, library receive/return events) validated against "
+                  "Trace_PyDispatch by TLC",
+        text="TLC checks on all argument lists of up to 3 values x keyword sets, for a signature with an intent(out) "
+             "parameter in front of a default and for an overload set, that moving an argument from positional to "
+             "keyword form changes neither the chosen overload, nor the bound values, nor the C++ arity, and that the "
+             "first matching overload wins. Conformance: the real Shroud wraps an instrumented library (numpy-free "
+             "subset: scalars, bool, const char*, std::string in/inout/out, pointer and reference scalars in/out/inout, "
+             "defaults, overloads, a class); the extension is compiled against Python 3.12 and imported; every arity x "
+             "every positional/keyword split x boundary values, and surplus / unknown / missing / duplicated / wrongly "
+             "typed arguments are executed; TLC validates each call: library receives the supplied values and the C++ "
+             "defaults, Python gets the result followed by out/inout arguments, a call matching no signature raises "
+             "TypeError/ValueError without reaching the library; SystemError or a crash is a violation.",
+        note="Trusted: TLC, the driver's value encoding, rt/vt.c. Keyword calls that skip an earlier defaulted "
+             "parameter are outside the plan. Reference counts are not measured. Known finding: SystemError for "
+             "multiple std::string results on Python >= 3.10.",
+    ),
 }
 
 ALL = ["C%02d" % i for i in range(1, 19)]
